@@ -50,6 +50,7 @@ def _m1():
         ('srv', 's0', 1), ('srv', 's0', 0), ('srv-', 's1'), ('srv+', 's1', 0),
         ('alloc', 1), ('idg', 'g', 1),
         ('state', 's0', 'frozen', 0), ('state', 's0', 'up', -1),
+        ('cell-', 'rack:0'), ('cell+', 'rack:0'),
         ('tick', 40), ('noop',), ('restart',),
     )
     return cfg
